@@ -62,6 +62,10 @@ class Unit:
         self.kind = "bin" if any("Executable" in t for t in j["crate_types"]) else "lib"
         self.name = "%s-%s" % (self.crate, self.kind)
         self.fn_renames = _pin_function_names(j, self.name)
+        try:
+            self.closure_renames = _pin_closure_keys(j, self.name)
+        except Exception:
+            self.closure_renames = {}
         self.types = j["types"]
         self.adts = {a["path"]: a for a in j["adts"]}
         self.impls = j["impls"]
@@ -164,7 +168,102 @@ def _pin_function_names(j, unit_name):
                 fix(v)
     fix(j["bodies"])
     fix(j.get("hir", []))
+    fix(j.get("types", []))
     return ren
+
+
+def _pin_closure_keys(j, unit_name):
+    """Closures are numbered in source order within their parent, so adding or removing one (a closure replaced by
+    a named function, a new local closure) shifts the keys of the others. Re-pair the closures of every parent with
+    the pinned ones by signature (number of parameters, types of the named ones, return type), keeping the order,
+    and spell their keys (and those of everything nested in them) the pinned way. Returns {current key: pinned key}."""
+    import re
+    pinned = pinned_names()
+    if not pinned:
+        return {}
+    types = j["types"]
+    ren_all = {}
+
+    def direct(keys, parent):
+        pre = parent + "::{closure#"
+        out = []
+        for k in keys:
+            if k.startswith(pre) and k.endswith("}") and "::" not in k[len(pre):]:
+                m = re.match(r"(\d+)\}$", k[len(pre):])
+                if m:
+                    out.append((int(m.group(1)), k))
+        return [k for _, k in sorted(out)]
+
+    def cur_sig(b):
+        ls = b["locals"]
+        return (b["argc"], {i: types[ls[i]["ty"]]["s"] for i in range(1, b["argc"] + 1)}, types[ls[0]["ty"]]["s"])
+
+    def pin_sig(e):
+        return (e["argc"], {i: t for (i, t, n) in (tuple(x) for x in e["locals"]) if 1 <= i <= e["argc"]}, e.get("ret"))
+
+    def same(cs, ps):
+        if cs[0] != ps[0] or cs[2] != ps[2]:
+            return False
+        return all(cs[1].get(i) == t or "closure" in t for i, t in ps[1].items() if i > 1)
+
+    for _round in range(4):
+        bodies = {b["key"]: b for b in j["bodies"] if b.get("closure")}
+        pinned_cl = [k for k, e in pinned.items() if e.get("closure") and e.get("unit") == unit_name]
+        parents = {k.rsplit("::{closure#", 1)[0] for k in list(bodies) + pinned_cl}
+        ren = {}
+        for par in sorted(parents):
+            cur = direct(bodies, par)
+            pin = direct(pinned_cl, par)
+            if not pin or not cur:
+                continue
+            if len(cur) == len(pin) and all(c == p_ and same(cur_sig(bodies[c]), pin_sig(pinned[p_])) for c, p_ in zip(cur, pin)):
+                continue
+            used = set()
+            pos = 0
+            for c in cur:
+                cs = cur_sig(bodies[c])
+                hit = None
+                for qi in range(pos, len(pin)):
+                    if pin[qi] not in used and same(cs, pin_sig(pinned[pin[qi]])):
+                        hit = qi
+                        break
+                if hit is None:
+                    continue
+                used.add(pin[hit])
+                pos = hit + 1
+                if pin[hit] != c:
+                    ren[c] = pin[hit]
+            # a current closure that keeps a key another one is renamed TO would collide: move it out of the way
+            targets = set(ren.values())
+            for c in cur:
+                if c not in ren and c in targets:
+                    ren[c] = c[:-1] + "-new}"
+        if not ren:
+            break
+        ren_all.update(ren)
+        tmp = {k: "\0%d\0" % i for i, k in enumerate(ren)}
+
+        def fix(o, mapping):
+            if isinstance(o, dict):
+                for fld in ("key", "resolved", "parent", "path"):
+                    v = o.get(fld)
+                    if isinstance(v, str):
+                        for a, b_ in mapping.items():
+                            if v == a or v.startswith(a + "::"):
+                                o[fld] = b_ + v[len(a):]
+                                break
+                for v in o.values():
+                    fix(v, mapping)
+            elif isinstance(o, list):
+                for v in o:
+                    fix(v, mapping)
+        fix(j["bodies"], tmp)
+        fix(j["bodies"], {tmp[k]: v for k, v in ren.items()})
+        fix(j.get("hir", []), tmp)
+        fix(j.get("hir", []), {tmp[k]: v for k, v in ren.items()})
+        fix(j.get("types", []), tmp)
+        fix(j.get("types", []), {tmp[k]: v for k, v in ren.items()})
+    return ren_all
 
 
 def pin_names(body):
@@ -194,7 +293,16 @@ def pin_names(body):
     for t, idxs in by_t_cur.items():
         names = by_t_pin.get(t)
         if names and len(names) == len(idxs):
-            for i, n in zip(idxs, names):
+            # names that are already in the pinned vocabulary stay (declarations may have been reordered); only the
+            # ones that are not are paired, in order, with the pinned names that went missing
+            have = [body.locals[i]["name"] for i in idxs]
+            free_i = [i for i in idxs if body.locals[i]["name"] not in names]
+            free_n = [n for n in names if n not in have]
+            if len(free_i) != len(free_n) or len(set(have)) != len(have) or len(set(names)) != len(names):
+                if len(set(have)) == len(have) and len(set(names)) == len(names):
+                    continue
+                free_i, free_n = idxs, names        # shadowed duplicates: positional, as recorded
+            for i, n in zip(free_i, free_n):
                 if body.locals[i]["name"] != n:
                     body.renames[body.locals[i]["name"]] = n
                 body.locals[i]["name"] = n
@@ -208,13 +316,20 @@ def pin_names(body):
                     for e in p["proj"][:2]:
                         if e[0] == "field" and isinstance(e[2], str) and not e[2].isdigit():
                             cur_caps.add((e[1], e[2]))
-        if len({i for i, _ in cur_caps}) == len(caps) or {i for i, _ in cur_caps} <= set(caps):
+        cur_by_i = dict(sorted(cur_caps))
+        pinned = [caps[i] for i in sorted(caps)]
+        # captures already spelled the pinned way stay (the capture ORDER follows first use and may change); the
+        # others are paired, in index order, with the pinned names that went missing
+        free_i = [i for i in sorted(cur_by_i) if cur_by_i[i] not in pinned]
+        free_n = [n for n in pinned if n not in cur_by_i.values()]
+        if free_i and len(free_i) == len(free_n):
+            ren = dict(zip(free_i, free_n))
             for blk in body.blocks:
                 for p in iter_places(blk):
                     if p["l"] == 1:
                         for e in p["proj"][:2]:
-                            if e[0] == "field" and isinstance(e[2], str) and not e[2].isdigit() and e[1] in caps:
-                                e[2] = caps[e[1]]
+                            if e[0] == "field" and isinstance(e[2], str) and not e[2].isdigit() and e[1] in ren:
+                                e[2] = ren[e[1]]
 
 
 class Program:
@@ -257,7 +372,18 @@ class Program:
                         caps = {i: n for (i, n) in (tuple(x) for x in ent.get("captures", []))}
                         fs = r.get("fields") or []
                         if caps and len(fs) == len(caps):
-                            r["fields"] = [caps.get(i, f) for i, f in enumerate(fs)]
+                            pinned = [caps[i] for i in sorted(caps)]
+                            free_i = [i for i, f in enumerate(fs) if f not in pinned]
+                            free_n = [n for n in pinned if n not in fs]
+                            if free_i and len(free_i) == len(free_n):
+                                ren = dict(zip(free_i, free_n))
+                                r["fields"] = [ren.get(i, f) for i, f in enumerate(fs)]
+        # functions that did not exist in the pinned tree are inlined into their callers (engine/sa/mirinline.py)
+        from . import mirinline as _inline
+        try:
+            self.inline_report = _inline.inline_new_functions(self)
+        except Exception as e:          # fail open to the un-inlined program: the rules then see the helper as it is
+            self.inline_report = {"error": [repr(e)]}
         self.adts = {}
         self.consts = {}
         self.impls = []
